@@ -69,9 +69,9 @@ Proof.
     try (destruct (curr s); [destruct (_ <? _)|]; reflexivity);
     try (destruct (curr s); reflexivity).
   - (* PPick *)
-    simp. set (k := find_free (bufs s)).
+    simp. set (k := find_free_from (base s) (bufs s)).
     assert (Hk : k <> i).
-    { intro E. subst i. pose proof (find_free_free (bufs s) Hlen) as Hff. fold k in Hff. congruence. }
+    { intro E. subst i. pose proof (ff_free (base s) (bufs s) Hlen) as Hff. fold k in Hff. congruence. }
     rewrite getb_upd_other by exact Hk.
     destruct (k <? length (bufs s)); [reflexivity | apply getb_app1; exact Hlen].
   - (* PZero *)
@@ -115,8 +115,8 @@ Proof.
   all: match goal with
        | E : pc _ = PPick _ |- _ =>
            right; left; injection H as <-;
-           destruct (Nat.lt_ge_cases (find_free (bufs s)) (length (bufs s))) as [Hl|Hg];
-           [apply find_free_free; exact Hl | rewrite getb_overflow by exact Hg; reflexivity]
+           destruct (Nat.lt_ge_cases (find_free_from (base s) (bufs s)) (length (bufs s))) as [Hl|Hg];
+           [apply ff_free; exact Hl | rewrite getb_overflow by exact Hg; reflexivity]
        | E : pc _ = PPrepFlag |- _ => right; right; split; [reflexivity | congruence]
        end.
 Qed.
